@@ -2,6 +2,7 @@
 from __future__ import annotations
 
 import copy
+import inspect
 import dataclasses
 import json
 
@@ -104,12 +105,16 @@ def run_rel(unit, only=None):
             if variant == "mixin":
                 encs["mixin"] = lambda x: x.to_dict()
                 decs["mixin"] = D.from_dict
-            fencs, fdecs = {}, {}
+            fencs, fdecs, fencs_e, fdecs_e = {}, {}, {}, {}
             if fmt_ok:
                 for fmt in ("json", "yaml", "msgpack", "orjson"):
                     E, Dc = formats.codecs(fmt)
                     fencs[fmt] = E(D).encode
                     fdecs[fmt] = Dc(D).decode
+                    if "default_dialect" in inspect.signature(E.__init__).parameters:
+                        # a Dialect that sets nothing is the same entry point spelled differently
+                        fencs_e[fmt] = E(D, default_dialect=_EmptyDialect).encode
+                        fdecs_e[fmt] = Dc(D, default_dialect=_EmptyDialect).decode
         except Exception as e:   # noqa: BLE001
             res.cases += 1
             V("build-failed", "build", -1, repr(e)[:300])
@@ -163,6 +168,14 @@ def run_rel(unit, only=None):
                     res.counters[f"format_unparseable_{fmt}"] += 1
                     continue
                 back = e1.outcome(fdecs[fmt], r[1])
+                if fmt in fencs_e:
+                    res.transitions += 2
+                    r_e = e1.outcome(fencs_e[fmt], v)
+                    if r_e[0] != "ok" or type(r_e[1]) is not type(r[1]) or r_e[1] != r[1]:
+                        V("format-empty-dialect-differs", fmt, idx, f"value={v!r:.150} plain={_sh(r)} with an empty default_dialect={_sh(r_e)}")
+                    back_e = e1.outcome(fdecs_e[fmt], r[1])
+                    if back_e[0] != back[0] or (back[0] == "ok" and not ref.same(back_e[1], back[1])):
+                        V("format-empty-dialect-differs", fmt + "-decode", idx, f"input={r[1]!r:.150} plain={_sh(back)} with an empty default_dialect={_sh(back_e)}")
                 native = fmt == "msgpack" and any(l in ("bytes", "bytearray", "literal_bytes") for l in space.leaves_of(d))
                 if fmt in ("json", "msgpack", "yaml") and not native and _plain_json(enc) and not _loose_eq(parsed, enc, fmt):
                     V("format-document-differs", fmt, idx, f"value={v!r:.150} basic={enc!r:.150} parsed={parsed!r:.150}")
@@ -180,6 +193,17 @@ def run_rel(unit, only=None):
                                 encoded=repr(enc)[:100]), cap=1)
     res.states += 1
     return res
+
+
+def _empty_dialect():
+    from mashumaro.dialect import Dialect
+
+    class EmptyDialect(Dialect):
+        pass
+    return EmptyDialect
+
+
+_EmptyDialect = _empty_dialect()
 
 
 def _sh(r):
